@@ -330,48 +330,68 @@ def key_triple(p):
     return None
 
 
+def _search_facts(p, fp, buckets):
+    """facts the path holds about a search for fingerprint fp in the given bucket expressions:
+    (found bin expression or None, set of buckets searched to the end without a hit)"""
+    hit, walked = None, set()
+    for c in p.conds:
+        a = strip_epochs(c.atom)
+        if a[0] == "loop0" and c.truth and a[2] in buckets:
+            walked.add(a[2])
+        elif a[0] == "cmp" and a[1] in ("in", "notin") and (fp is None or a[2] == fp) and a[3][0] == "it" and a[3][2] in buckets and c.loops:
+            if (a[1] == "in") == c.truth:
+                hit = a[3]
+            else:
+                walked.add(a[3][2])
+        elif a[0] == "call" and a[1] == ("g", "any") and len(a[2]) == 1 and a[2][0][0] == "comp" and len(a[2][0][3]) == 1 and not c.truth:
+            g = a[2][0]
+            if g[3][0][2] in buckets and g[2][0] == "cmp" and g[2][1] == "in" and (fp is None or g[2][2] == fp):
+                walked.add(g[3][0][2])
+        elif a[0] == "cmp" and a[1] in ("is", "isnot") and a[3] == C(None) and a[2][0] == "call" and a[2][1] == ("g", "next") and len(a[2][2]) == 2 \
+                and a[2][2][1] == C(None) and a[2][2][0][0] == "comp" and len(a[2][2][0][3]) == 1:
+            # next((b for b in bucket if fp in b), None): the first bin holding the fingerprint, or None
+            g = a[2][2][0]
+            gen = g[3][0]
+            okf = gen[2] in buckets and g[2] == ("it", gen[1], gen[2]) and len(gen[3]) == 1 and gen[3][0][0] == "cmp" and gen[3][0][1] == "in" \
+                and (fp is None or gen[3][0][2] == fp) and gen[3][0][3] == g[2]
+            if okf:
+                if (a[1] == "isnot") == c.truth:
+                    hit = a[2]
+                else:
+                    walked.add(gen[2])
+    return hit, walked
+
+
 def presence(p):
     """what a path of add / remove / check knows about the key's fingerprint being stored:
-    ('present', bin expression or None) / ('absent',) / None.  Recognised through the presence helper's result, or - when the
-    search is written out (a helper looked through) - through a hit `fingerprint in <bin of a candidate bucket>` or two
-    candidate buckets walked to the end without one"""
+    ('present', bin expression or None) / ('absent',) / ('infeasible',) / None.  Recognised through the presence helper's
+    result, or - when the search is written out (a helper looked through) - through a hit `fingerprint in <bin of a candidate
+    bucket>` or two candidate buckets walked to the end without one.  'infeasible': the presence helper named a bucket and a
+    complete search of that very bucket found nothing (excluded by the helper's own rule, C15.no-duplicate)."""
+    kt = key_triple(p)
+    fp = kt[2] if kt else None
+    tab = ("f", SELF, TABLE, 0)
     for c in p.conds:
         a = c.atom
         if a[0] == "cmp" and a[1] in ("is", "isnot") and a[3] == C(None) and not c.loops and strip_epochs(a[2])[0] == "ret" \
                 and strip_epochs(a[2])[1].endswith("._check_if_present"):
             if (a[1] == "isnot") != c.truth:
                 return ("absent",)
-            # present: the entry itself, when the path goes on to find it in the reported bucket
-            where_ = ("sub", ("f", SELF, TABLE, 0), strip_epochs(a[2]), 0)
-            for c2 in p.conds:
-                b = strip_epochs(c2.atom)
-                if c2.loops and c2.truth and b[0] == "cmp" and b[1] == "in" and b[3][0] == "it" and b[3][2] == where_:
-                    return ("present", b[3])
+            where_ = ("sub", tab, strip_epochs(a[2]), 0)
+            hit, walked = _search_facts(p, None, {where_})
+            if hit is not None:
+                return ("present", hit)
+            if where_ in walked:
+                return ("infeasible",)
             return ("present", None)
-    kt = key_triple(p)
     if kt is None:
         return None
-    i1, i2, fp = kt
-    tab = ("f", SELF, TABLE, 0)
-    buckets = {("sub", tab, i1, 0): "1", ("sub", tab, i2, 0): "2"}
-    hit = None
-    walked = set()
-    for c in p.conds:
-        a = strip_epochs(c.atom)
-        if a[0] == "loop0" and c.truth and a[2] in buckets:
-            walked.add(buckets[a[2]])
-        elif a[0] == "cmp" and a[1] in ("in", "notin") and a[2] == fp and a[3][0] == "it" and a[3][2] in buckets and c.loops:
-            if (a[1] == "in") == c.truth:
-                hit = a[3]
-            else:
-                walked.add(buckets[a[3][2]])
-        elif a[0] == "call" and a[1] == ("g", "any") and len(a[2]) == 1 and a[2][0][0] == "comp" and len(a[2][0][3]) == 1 and not c.truth:
-            g = a[2][0]
-            if g[3][0][2] in buckets and g[2][0] == "cmp" and g[2][1] == "in" and g[2][2] == fp:
-                walked.add(buckets[g[3][0][2]])
+    i1, i2, _ = kt
+    b1, b2 = ("sub", tab, i1, 0), ("sub", tab, i2, 0)
+    hit, walked = _search_facts(p, fp, {b1, b2})
     if hit is not None:
         return ("present", hit)
-    if walked == {"1", "2"}:
+    if walked == {b1, b2}:
         return ("absent",)
     return None
 
